@@ -83,7 +83,7 @@ def run(ctx):
             shutil.rmtree(sub, ignore_errors=True)
         # 4. block path: blocks the node assembles from its own mempool (real worker) on a real chain
         sub = dbdir / "chain"; sub.mkdir()
-        tr, info = zc.run_chaindrv(ctx, cdrv, "c01", ctx.seed, 30 if quick else 120, sub, extra=["-followers", "pebble", "-trimdepth", 4])
+        tr, info = zc.run_chaindrv(ctx, cdrv, "c01", ctx.seed, 30 if quick else 120, sub, extra=["-followers", "pebble", "-trimdepth", 4, "-chained", 6])
         for pr in info.get("problems") or []:
             if pr["kind"] in ("accepted-block-spends-missing-output", "spent-output-still-present", "own-block-rejected", "follower-rejects-block", "follower-state-differs"):
                 vlib.report(ctx, {"kind": pr["kind"]}, {"seed": ctx.seed, "problem": pr})
